@@ -21,6 +21,10 @@ ASSUMPTIONS = ["integer values, totals far below 2^53", "ILP: CBC as shipped; a 
 WIDE = {"wide": tuple(range(1, 11)), "fib": (1, 2, 3, 5, 8, 13, 21), "near": (8, 9, 10, 11, 12, 13), "pow2": (1, 2, 4, 8, 16, 32)}
 
 
+SEP_TEXT = ("the 1091 objective-separating instances found by complete enumeration of all multisets of 6 items over 1..24 (k=3), 7 over 1..20 (k=3), "
+            "7 over 1..16 (k=4), 8 over 1..14 (k=3) (tools/gen_separating.py): ckk/snp/rnp, dp x 3 objectives x both output families, ilp x 3, cg x 48")
+
+
 def bounds(tier):
     if tier == "quick":
         return {"dense": "values 0..5, 1..7 items, 1..6 bins (cg: all 48 configs; dp/ckk within cost bounds)",
@@ -31,6 +35,7 @@ def bounds(tier):
                 "offset": "letters {b/2+7, b+1, b+5, b+6, 2b+1, 2b+8} for b in {1e5, 1e6, 2**24, 1e9}, 3..5 items, k=2..3: ckk/snp/rnp/dp (all objectives, both output families), cg x 3 objectives x {all switches on, all off}",
                 "spread (quick)": "5..6 items over fibonacci and powers of two, k=3..4",
                 "named": "values 0..5, 2..5 items, k=2..3, dict with integer names: all exact algorithms and all cg configurations",
+                "separating": SEP_TEXT,
                 "big": "values {0, 1, 2**24+1, 2**31+1, 2**32+3, 2**40+5}, 2..5 items, k=2..4: ckk/snp/rnp/dp (all objectives); cg 48 configurations k=2..3"}
     return {"dense": "values 0..7, 1..8 items, 1..6 bins",
             "wide": "values 1..10 (7 items), fibonacci/near-equal/powers-of-two alphabets (6..8 items), k=2..5",
@@ -39,6 +44,7 @@ def bounds(tier):
             "long-thin": "9..24 items over {1,2}, 9..16 over {1,2,3}, 9..13 over {0,1,5} and {2,3,7}; k in {2,3,4,5,7}; cg x 3 objectives x {default, fast bound off}; ckk/rnp (n<=12, k<=4), snp (n<=12, k<=3); ilp at n in {9,12}, k<=3; optimum from the sum-vector DP",
             "offset": "letters {b/2+7, b+1, b+5, b+6, 2b+1, 2b+8} for b in {1e5, 1e6, 2**24, 1e9}, 3..6 items, k=2..3: ckk/snp/rnp/dp (all objectives, both output families), cg x 3 objectives x {all switches on, all off}",
             "named": "values 0..5, 2..5 items, k=2..3, dict with integer names: all exact algorithms and all cg configurations",
+            "separating": SEP_TEXT,
             "big": "values {0, 1, 2**24+1, 2**31+1, 2**32+3, 2**40+5}, 2..6 items, k=2..4: ckk/snp/rnp/dp (all objectives); cg 48 configurations k=2..3"}
 
 
@@ -76,6 +82,11 @@ def tasks(tier):
     for name in ("fib", "pow2"):
         for ch in scopes.chunk_multisets(WIDE[name], 5, 6, 60):
             ts.append((f"{name}q-exact", ch, (3, 4), tier))
+    # objective-separating instances (no difference-optimal partition is optimal for the largest / smallest sum, or all of them
+    # exceed LPT's maximum): a rule that is sound for one objective and applied to another can only fail here
+    sep, _ = scopes.separating_instances()
+    for ch in spaces.chunked(sep, 12):
+        ts.append(("separating", ch, None, tier))
     # named items whose names are integers larger than, and anti-correlated with, the values
     for ch in scopes.chunk_multisets(range(0, 6), 2, 5, 40):
         ts.append(("named-cg", ch, (2, 3), tier))
@@ -147,6 +158,21 @@ def run_task(task):
     kind = scope.split("-")[-1] if "-" in scope else scope
     if scope == "long-thin":
         return _long_thin(acc, chunk, tier)
+    if scope == "separating":
+        for items, k, fl in chunk:
+            ms = list(items)
+            acc.point(nontrivial=True)
+            for a in ("ckk", "snp", "rnp"):
+                _judge(acc, {"algo": a, "items": ms, "k": k, "out": "Sums", "kw": {}}, "MinimizeDifference")
+            for spec in scopes.CG_OBJECTIVES:
+                for out in ("Sums", "PartitionAndSumsTuple"):
+                    _judge(acc, {"algo": "dp", "items": ms, "k": k, "out": out, "kw": {"objective": spec}}, spec)
+                _judge(acc, {"algo": "ilp", "items": ms, "k": k, "out": "Sums", "kw": {"objective": spec}}, spec)
+            for kw in scopes.cg_configs(all_switches=True):
+                _judge(acc, {"algo": "cg", "items": ms, "k": k, "out": "Sums", "kw": kw}, kw["objective"])
+        acc.sample({"scope": scope, "items": list(chunk[0][0]), "k": chunk[0][1], "flags": chunk[0][2]})
+        O.opt_partition.cache_clear()
+        return acc
     for ms in chunk:
         n = len(ms)
         for k in ks:
